@@ -7,11 +7,9 @@ package main
 // R3 the 1-NN exclusion by MINMAXDIST is non-strict.
 
 import (
-	"fmt"
 	"go/ast"
 	"go/token"
 	"go/types"
-	"os"
 )
 
 func init() { register("C12", false, checkC12) }
@@ -30,7 +28,7 @@ func checkC12(c *Ctx) {
 	c.Rule("C12.R1", "model evaluation of NearestNeighbors(k, p) on hand-built trees (one leaf; two and three leaves; two inner nodes over three leaves) with the two point-to-box bounds replaced by tables: for every weak ordering of the object distances, every admissible choice of inner MINDIST (tight, lower, zero) and MINMAXDIST (tight, largest in the subtree, beyond everything) and k ∈ {1, 2, n, n+1}, the result has k slots, the first min(k, n) hold distinct stored objects whose distances are the smallest ones in non-decreasing order, the rest are nil")
 	c.Rule("C12.R2", "model evaluation of NearestNeighbor(p) on the same trees and bound tables, distance orderings without ties: the object returned is the one at the least distance (every leaf entry is looked at, no subtree holding the nearest object is skipped)")
 	c.Rule("C12.R3", "the same with ties (several objects, possibly in different subtrees, at the same distance): an object at the least distance is returned — exclusion by the MINMAXDIST bound must not be strict")
-	c.Rule("C12.R4", "distances are compared like with like: the point-to-box bounds return squared distances, math.Sqrt makes them linear, and no ordering comparison (pruning test, accumulator insertion, minimum update) has a squared value on one side and a linear one on the other")
+	c.Rule("C12.R4", "distances are compared like with like, observed as scale invariance: on a tree of 13 point-like objects built through Insert, NearestNeighbor and NearestNeighbors(4) — interpreted with the package's own MINDIST / MINMAXDIST arithmetic — return what a linear scan finds for 36 query points whether the coordinates are valued on a grid of spacing 1/64, 1 or 64 (a squared distance compared with a linear one orders differently below and above 1)")
 	c.Rule("C12.R5", "premise of the MINMAXDIST bound and of every prune: each entry's box is the exact envelope of its subtree and parent links follow entries after every Insert/Delete — the envelope and link facets of the C11 model evaluation")
 	p := c.P.Pkg("index/rtree")
 	if p == nil {
@@ -58,21 +56,10 @@ func checkC12(c *Ctx) {
 	c.Rule("C12.R6", "each point-to-box function of the package equals, as a polynomial in symbolic coordinates and for all 16 placements of the point relative to the box, either MINDIST² or MINMAXDIST² (Roussopoulos, Kelley, Vincent 1995, definition 4)")
 	fMin, fMM := c12formulas(c, p, a.bounds)
 	c12model(c, p, fMin, fMM)
-	a.mindist = fMin
-	if a.mindist == nil {
-		c.Unk("C12.R4", "index/rtree#MINDIST", token.NoPos, "no point-to-box function of the package equals MINDIST²: the unit rule has nothing to classify")
-		return
-	}
-	a.classify()
-	if os.Getenv("C12DEBUG") != "" {
-		for o, cl := range a.class {
-			fmt.Println("class", o.Name(), c.P.Position(o.Pos()), cl)
-		}
-	}
-	a.r4()
+	c12scales(c, "C12.R4")
 	// R5: exact envelopes (shared with C11)
 	c11model(c, map[string]string{"envelopes": "C12.R5", "parent-links": "C12.R5", "no-panic": "C12.R5"})
-	c.Floor("C12.R4", 3)
+	c.Floor("C12.R4", 1)
 	c.Floor("C12.R5", 3)
 	c.Floor("C12.R1", 4)
 	c.Floor("C12.R2", 4)
@@ -80,140 +67,7 @@ func checkC12(c *Ctx) {
 	c.Floor("C12.R6", 2)
 }
 
-func (a *c12) isBound(f *types.Func) bool {
-	for _, b := range a.bounds {
-		if b == f {
-			return true
-		}
-	}
-	return false
-}
-
 // ---------------------------------------------------------------- R2 (+ MINDIST discovery)
-
-// classify computes, for local variables, parameters and results of package
-// functions, whether their value derives from MINDIST (1), another bound (2) or both.
-func (a *c12) classify() {
-	c := a.c
-	classOfCall := func(f *types.Func) int {
-		if f == a.mindist {
-			return 1
-		}
-		if a.isBound(f) {
-			return 2
-		}
-		return 0
-	}
-	exprClass := a.exprClass
-	_ = classOfCall
-	for changed := true; changed; {
-		changed = false
-		set := func(o types.Object, cl int) {
-			if o != nil && cl != 0 && a.class[o]|cl != a.class[o] {
-				a.class[o] |= cl
-				changed = true
-			}
-		}
-		for _, fn := range a.funcs {
-			if a.isBound(fn) {
-				continue
-			}
-			fd := c.P.Decl(fn)
-			ast.Inspect(fd.Body, func(n ast.Node) bool {
-				switch x := n.(type) {
-				case *ast.AssignStmt:
-					if len(x.Lhs) == len(x.Rhs) {
-						for i, l := range x.Lhs {
-							set(rootObj(a.info, l), exprClass(x.Rhs[i]))
-						}
-					} else if len(x.Rhs) == 1 {
-						if call, ok := unparen(x.Rhs[0]).(*ast.CallExpr); ok {
-							if f := callee(a.info, call); f != nil {
-								for i, l := range x.Lhs {
-									if r := a.ret[f]; i < len(r) {
-										set(rootObj(a.info, l), r[i])
-									}
-								}
-							}
-						}
-					}
-				case *ast.CallExpr:
-					// arguments → parameters
-					if f := callee(a.info, x); f != nil && c.P.Decl(f) != nil {
-						ps := paramVars(a.info, c.P.Decl(f).Type)
-						for i, arg := range x.Args {
-							if i < len(ps) && ps[i] != nil {
-								set(ps[i], exprClass(arg))
-							}
-						}
-					}
-				case *ast.ReturnStmt:
-					r := a.ret[fn]
-					for len(r) < len(x.Results) {
-						r = append(r, 0)
-					}
-					for i, e := range x.Results {
-						if cl := exprClass(e); r[i]|cl != r[i] {
-							r[i] |= cl
-							changed = true
-						}
-					}
-					a.ret[fn] = r
-				}
-				return true
-			})
-		}
-	}
-}
-
-func (a *c12) exprClass(e ast.Expr) int {
-	switch x := unparen(e).(type) {
-	case *ast.Ident:
-		if o := objOf(a.info, x); o != nil {
-			return a.class[o]
-		}
-	case *ast.SelectorExpr:
-		return a.exprClass(x.X)
-	case *ast.IndexExpr:
-		return a.exprClass(x.X)
-	case *ast.SliceExpr:
-		return a.exprClass(x.X)
-	case *ast.StarExpr:
-		return a.exprClass(x.X)
-	case *ast.UnaryExpr:
-		return a.exprClass(x.X)
-	case *ast.BinaryExpr:
-		return a.exprClass(x.X) | a.exprClass(x.Y)
-	case *ast.CallExpr:
-		if f := callee(a.info, x); f != nil {
-			if f == a.mindist {
-				return 1 | unitSq
-			}
-			if a.isBound(f) {
-				return 2 | unitSq
-			}
-			if isFuncIn(f, "math", "Sqrt") && len(x.Args) == 1 {
-				if cl := a.exprClass(x.Args[0]); cl != 0 {
-					return cl&3 | unitLin
-				}
-				return 0
-			}
-			if a.c.P.Decl(f) != nil {
-				if r := a.ret[f]; len(r) == 1 {
-					return r[0]
-				}
-				return 0
-			}
-		}
-		// builtins, conversions and external pure functions (math.Sqrt, append, …): from the arguments
-		cl := 0
-		for _, arg := range x.Args {
-			cl |= a.exprClass(arg)
-		}
-		return cl
-	}
-	return 0
-}
 
 // unit bits carried next to the derivation class: the bounds return squared
 // distances; math.Sqrt turns a squared value into a linear one.
@@ -221,52 +75,6 @@ const (
 	unitSq  = 4
 	unitLin = 8
 )
-
-// r4: no ordering comparison between a squared and a linear distance.
-func (a *c12) r4() {
-	c := a.c
-	unitName := func(cl int) string {
-		switch cl & (unitSq | unitLin) {
-		case unitSq:
-			return "squared"
-		case unitLin:
-			return "linear"
-		case unitSq | unitLin:
-			return "squared on some paths and linear on others"
-		}
-		return "-"
-	}
-	for _, fn := range a.funcs {
-		if a.isBound(fn) {
-			continue
-		}
-		fd := c.P.Decl(fn)
-		n := 0
-		ast.Inspect(fd.Body, func(nd ast.Node) bool {
-			b, ok := nd.(*ast.BinaryExpr)
-			if !ok {
-				return true
-			}
-			switch b.Op {
-			case token.LSS, token.LEQ, token.GTR, token.GEQ, token.EQL, token.NEQ:
-			default:
-				return true
-			}
-			lc, rc := a.exprClass(b.X)&(unitSq|unitLin), a.exprClass(b.Y)&(unitSq|unitLin)
-			if lc == 0 || rc == 0 {
-				return true
-			}
-			n++
-			cons := fmt.Sprintf("%s#cmp:%s", c.P.FuncName(fn), src(b))
-			if lc == rc && (lc == unitSq || lc == unitLin) {
-				c.OK("C12.R4", cons, b.Pos(), "both sides %s", unitName(lc))
-			} else {
-				c.Bad("C12.R4", cons, b.Pos(), "`%s` compares a %s distance (%s) with a %s one (%s): for values below 1 the order of d and d² is reversed, so an entry is pruned or ranked against the wrong threshold", src(b), unitName(lc), src(b.X), unitName(rc), src(b.Y))
-			}
-			return true
-		})
-	}
-}
 
 // comparisons in if-conditions involving an other-bound-derived operand
 type boundCmp struct {
